@@ -13,8 +13,11 @@ from . import c06
 from . import common as K
 
 DANGEROUS = {"pickle.dumps", "pickle.loads", "pickle.load", "pickle.dump", "__import__", "eval", "exec", "compile",
-             "execute", "os.system", "os.popen", "marshal.loads", "importlib.import_module"}
-DANGEROUS_PREFIX = ("subprocess.", "importlib.", "ctypes.")
+             "execute", "os.system", "os.popen", "marshal.loads", "importlib.import_module",
+             # import by name, in disguise: these import every module on the dotted path they are given
+             "pkgutil.resolve_name", "pkgutil.find_loader", "pkgutil.get_loader", "pydoc.locate", "runpy.run_module",
+             "runpy.run_path", "imp.load_module", "imp.find_module", "zipimport.zipimporter"}
+DANGEROUS_PREFIX = ("subprocess.", "importlib.", "ctypes.", "runpy.")
 FRESH_FIELDS = ["_local_objects", "_proxy_cache", "_netref_classes_cache", "_request_callbacks", "_send_queue", "_config"]
 
 
@@ -162,6 +165,7 @@ def run(ctx, rep):
     c06.check_mediation(ctx, rep, "R07.3", "R07.3")
     K.share(ctx, rep, "c06", lambda o: o.rule == "R06.3", "R07.3", floor=1)
     K.share(ctx, rep, "c02", lambda o: o.rule in ("R02.1", "R02.2") and "through the policy" in o.key, "R07.3", floor=2)
+    K.share(ctx, rep, "c03", lambda o: o.rule == "R03.3" and "resolves only through" in o.key, "R07.2", floor=1)
 
     # ------------------------------------------------------------------ R07.4
     n_sinks = 0
